@@ -19,7 +19,7 @@ SEARCH = ("suite_search", {"n": {"quick": 160, "thorough": 3000}, "crash_n": {"q
 SEARCH_CRASH = ("suite_search", {"n": {"quick": 20, "thorough": 200}, "crash_n": {"quick": 8, "thorough": 150}})
 
 GRID = ("suite_grid", {"n": {"quick": 120, "thorough": 3000}})
-SAMPLING = ("suite_sampling", {"n": {"quick": 160, "thorough": 3000}, "subprocs": {"quick": 1, "thorough": 3}})
+SAMPLING = ("suite_sampling", {"n": {"quick": 160, "thorough": 3000}, "subprocs": {"quick": 1, "thorough": 2}})
 TRANSFORMS_SMALL = ("suite_transforms", {"n": {"quick": 200, "thorough": 3000}})
 HYPERBAND_SMALL = ("suite_hyperband", {"n": {"quick": 40, "thorough": 800}})
 
@@ -103,10 +103,12 @@ PROPS = {
             "level_text": "Theorems (Ktm/Props/C11.lean): IDLE implies a running trial for every algorithm meeting the contract, proved for Hyperband, "
                           "grid and random sampling; a single tuner is never told IDLE; STOPPED is answered only with no retry pending and budget "
                           "used up or algorithm finished (grid: queue exhausted and nothing running; random: max_collisions+1 collisions); the "
-                          "search loop's trace shape (C19). Bounded-runs and all-workers-reach-STOPPED are evaluated by the fair-scheduler suite.",
-            "level_note": "partial: the quantitative clause (every fair schedule reaches STOPPED within budget x (retries+1) runs) is checked on the "
-                          "implementation by the `liveness` suite (fair random schedulers incl. all-fail patterns and empty initial spaces) with explicit "
-                          "bounds, not proved as a theorem; the IDLE / STOPPED decision logic is proved. " + CORE_NOTE,
+                          "search loop's trace shape (C19); and the run bound: for every algorithm, schedule and outcome pattern the number of trial "
+                          "runs is at most (#distinct trials) x (max_retries+1), hence N x (R+1) under max_trials = N and |grid| x (R+1) for grid search.",
+            "level_note": "partial: that every fair schedule makes all workers reach STOPPED (liveness proper), and the bound on the number of trials of "
+                          "Hyperband's schedule, are checked on the implementation by the `liveness` / `hyperband` suites (fair random schedulers incl. "
+                          "all-fail patterns and empty initial spaces, explicit bounds), not proved; the IDLE / STOPPED decision logic and the run "
+                          "bound per trial are proved. " + CORE_NOTE,
             "assumptions": ["fairness = every started trial is eventually ended (scheduler of the suite)"]},
     "C14": {"suites": [TRANSFORMS],
             "level_text": "Theorems (Ktm/Props/C14.lean), exact arithmetic: prob->index always in range, index->prob->index = id, the stepped linear "
